@@ -437,7 +437,7 @@ def generate(seed, prop, tier, index=0):
         n = len(c07_enum_space())
         if tier == "thorough" and index < n:
             return c07_enum_plan(seed, index)
-        if tier == "quick" and index < 700:
+        if tier == "quick" and index < 1000:
             return c07_enum_plan(seed, (index * 7919 + seed) % n)
     rng = random.Random(seed)
     cfg = gen_config(rng, prop, tier)
